@@ -518,7 +518,13 @@ def _infer_default(_param, infer_type):
         _param["default"] = get_value(_param["default"])
     if _param.get("default", False) in none_types:
         _param["default"] = NoneStr
-    if infer_type and _param.get("typ") is None and _param["default"] not in none_types:
+    if (
+        infer_type
+        and _param.get("typ") is None
+        and _param["default"] not in none_types
+        # a signed number is still a syntax node here; its type is taken once it has been evaluated (below)
+        and not isinstance(_param["default"], AST)
+    ):
         _param["typ"] = type(_param["default"]).__name__
     if needs_quoting(_param.get("typ")) or isinstance(_param["default"], str):
         _param["default"] = unquote(_param["default"])
